@@ -7,7 +7,8 @@
    Hypotheses: pixel scales non-zero (the code divides the origin by them); positive where a derived pixel scale must be
    non-zero (overlay).  Index-valued statements need no hypothesis at all. *)
 From Coq Require Import ZArith QArith List Bool Reals Lra.
-From PAV Require Import Base.Res Base.NumOps Model.C12 Proofs.C12 Proofs.C12Reloc Proofs.C12Spec.
+From PAV Require Import Base.Res Base.NumOps Model.C12 Proofs.C12 Proofs.C12Reloc Proofs.C12Spec Proofs.C12Edge.
+From PAV Require Model.C10.
 Import ListNotations.
 Local Open Scope R_scope.
 
@@ -278,6 +279,20 @@ Theorem C12_border_views_translate :
   relocated_mesh_grid_from idx (shift d g) (shift d mesh) = shift d (relocated_mesh_grid_from idx g mesh)).
 Proof. exact (conj x_sub_border_grid_translates (conj x_sub_border_grid_spec relocated_mesh_grid_from_translates)). Qed.
 
+(* derive_grid.edge / derive_grid.border with the index lists of C10's models of edge_1d_indexes_from / border_slim_indexes_from
+   ([edge_sel] / [border_sel] = those lists as naturals): for rectangular masks C10's slim order IS the double loop of C12's
+   model, every index is in range (C10_edge_sound, C10_border_membership), so the index hypothesis of C12_mask_grids_translate is
+   discharged; any selection is a selection from the origin-free grid + origin *)
+Theorem C12_edge_and_border_grids_translate :
+  (forall m : mask, Model.C10.rectb m = true -> unmasked m = Model.C10.unmasked_pixels m) /\
+  (forall (d : @pt ROps) (M : @mask2d ROps), Model.C10.rectb (mk M) = true -> fst (mps M) <> 0 -> snd (mps M) <> 0 ->
+  derive_grid_sel edge_sel (translate d M) = shift d (derive_grid_sel edge_sel M)) /\
+  (forall (d : @pt ROps) (M : @mask2d ROps), Model.C10.rectb (mk M) = true -> fst (mps M) <> 0 -> snd (mps M) <> 0 ->
+  derive_grid_sel border_sel (translate d M) = shift d (derive_grid_sel border_sel M)) /\
+  (forall (sel : mask -> list nat) (M : @mask2d ROps), fst (mps M) <> 0 -> snd (mps M) <> 0 ->
+  derive_grid_sel sel M = gather zpt (shift (morg M) (rel_grid (mk M) (mps M))) (sel (mk M))).
+Proof. exact (conj unmasked_is_C10 (conj derive_grid_edge_translates (conj derive_grid_border_translates derive_grid_sel_spec))). Qed.
+
 (* the seven call sites as they were before the repairs (fixes/C12_*.diff, now committed in /repo): each violates the law
    with origin (0,0), d = (1,0) *)
 Theorem C12_dropped_origin_call_sites_refuted :
@@ -333,6 +348,16 @@ Example C12_relative_forms_nonvacuous :
   sub_border_grid M [1; 2; 1; 1; 2]%Z [0; 2; 5]%nat = [(3 # 4, - 21 # 8); (7 # 8, 9 # 4); (1 # 4, - 9 # 8)]%Q /\
   Forall (fun i => (i < length (over_sampled_grid M [1; 2; 1; 1; 2]%Z))%nat) [0; 2; 5]%nat.
 Proof. vm_compute. repeat split; repeat constructor. Qed.
+(* a rectangular 4 x 5 mask with an interior pixel: C10's edge / border lists are non-empty, proper sub-lists, and the edge grid moves by d *)
+Example C12_edge_hyps_satisfiable :
+  let m := [[true; false; false; false; true]; [false; false; false; false; false]; [false; false; false; false; true]; [true; false; false; true; true]] in
+  let M : @mask2d QOps := mkM m (1 # 2, 3 # 2)%Q (1 # 4, - 3 # 8)%Q in
+  let d : @pt QOps := (5 # 8, - 9 # 8)%Q in
+  Model.C10.rectb m = true /\ length (unmasked m) = 14%nat /\ edge_sel m = [0; 1; 2; 3; 4; 6; 7; 8; 9; 10; 11; 12; 13]%nat /\
+  border_sel m = [0; 1; 2; 3; 7; 8; 11; 12; 13]%nat /\
+  derive_grid_sel edge_sel (translate d M) = shift d (derive_grid_sel edge_sel M) /\
+  unmasked m = Model.C10.unmasked_pixels m.
+Proof. vm_compute. repeat split. Qed.
 Example C12_real_hyps_satisfiable : exists M : @mask2d ROps, 0 < fst (mps M) /\ 0 < snd (mps M) /\ fst (mps M) <> 0 /\ snd (mps M) <> 0.
 Proof. exists {| mk := [[false]]; mps := ((1, 2) : @pt ROps); morg := ((3, 4) : @pt ROps) |}. cbn. repeat split; lra. Qed.
 
@@ -361,3 +386,4 @@ Print Assumptions C12_rect_mapper_relative_form.
 Print Assumptions C12_hilbert_relative_forms.
 Print Assumptions C12_radial_projection_any_angle.
 Print Assumptions C12_border_views_translate.
+Print Assumptions C12_edge_and_border_grids_translate.
